@@ -410,3 +410,94 @@ pub fn sibling_game(ver: (u8, u8, u8), start_block: &[u8], nframes: usize, rng: 
 	let s = crate::gen::base_spec(ver, ports, if ver.0 == 0 && ver.1 == 0 { 0 } else { nframes });
 	Some(crate::gen::build(&s, rng).bytes)
 }
+
+/// Well-formed replays in which a structural element (the first Game End, the second Game End of a
+/// doubled end, or the `U` that opens the metadata) STARTS `d` bytes before a multiple of
+/// 4 KiB / 8 KiB / 64 KiB of FILE offset, d = 0..7: the element then straddles the boundary at
+/// which a reader's internal buffer of that size would be refilled. Frame and item counts are
+/// solved for; versions without item events only have the frame size to play with and are
+/// skipped when no solution below 3 000 frames exists.
+pub fn boundary_case(k: usize, seed: u64, out: &mut crate::driver::CaseOut) -> Option<(String, Vec<u8>, crate::model::Model)> {
+	use crate::spec::Kind;
+	let rng = Rng::derive(seed, 0xB0D + k as u64);
+	let block = [65536usize, 8192, 65536, 4096][k % 4];
+	let d = [0usize, 1, 2, 3, 4, 6, 7, 5][(k / 4) % 8];
+	let element = ["second-game-end", "first-game-end", "metadata"][(k / 32) % 3];
+	let v = [(3u8, 16u8), (3, 7), (3, 12), (3, 0), (3, 14), (3, 3), (2, 0), (1, 0)][(k / 96 + k) % 8];
+	let ports: Vec<(u8, bool)> = match k % 3 {
+		0 => vec![(0, false), (1, false)],
+		1 => vec![(0, true), (2, false)],
+		_ => vec![(1, false)],
+	};
+	let nchars: usize = ports.iter().map(|(_, i)| 1 + *i as usize).sum();
+	let mut frame_bytes = nchars * (1 + Kind::Pre.payload_size(v) + 1 + Kind::Post.payload_size(v));
+	for kd in [Kind::FStart, Kind::FEnd] {
+		if kd.exists(v) {
+			frame_bytes += 1 + kd.payload_size(v);
+		}
+	}
+	let item_bytes = if Kind::Item.exists(v) { 1 + Kind::Item.payload_size(v) } else { 0 };
+	let make = |n: usize, m: usize, rng: &mut Rng| {
+		let mut s = gen::base_spec((v.0, v.1, 0), ports.clone(), n);
+		for f in s.frames.iter_mut() {
+			f.items = 0;
+		}
+		for i in 0..m {
+			s.frames[i % n].items += 1;
+		}
+		s.ends = if element == "second-game-end" || k % 2 == 0 { 2 } else { 1 };
+		s.gecko_blocks = if spec::gte(v, (3, 3)) { k % 2 } else { 0 };
+		s.gecko_tail = if s.gecko_blocks > 0 { 7 } else { 0 };
+		s.metadata = if element == "metadata" || k % 5 != 0 { Some(gen::gen_meta(rng, 1, 2)) } else { None };
+		s
+	};
+	let locate = |m: &crate::model::Model| -> Option<usize> {
+		let ends: Vec<usize> = m.events.iter().filter(|e| e.0 == 0x39).map(|e| e.1).collect();
+		match element {
+			"first-game-end" => ends.first().copied(),
+			"second-game-end" => ends.get(1).copied(),
+			_ => Some(15 + m.declared_raw_len as usize),
+		}
+	};
+	let probe = gen::build(&make(1, 0, &mut rng.clone()), &mut rng.clone());
+	let off0 = locate(&probe.truth)?;
+	let target = (block - d) % block;
+	let mut best: Option<(usize, usize)> = None;
+	for extra in 0..3000usize {
+		let m_max = if item_bytes == 0 { 0 } else { 900 };
+		for m in 0..=m_max {
+			if (off0 + extra * frame_bytes + m * item_bytes) % block == target {
+				let cost = extra * frame_bytes + m * item_bytes;
+				if best.map_or(true, |(e, mm)| cost < e * frame_bytes + mm * item_bytes) {
+					best = Some((extra, m));
+				}
+				break;
+			}
+		}
+		if let Some((e, mm)) = best {
+			if (extra + 1) * frame_bytes > e * frame_bytes + mm * item_bytes {
+				break;
+			}
+		}
+	}
+	let Some((extra, m)) = best else {
+		out.observe("boundary_cases_without_solution", format!("v{}.{} frame_bytes={} block={} d={}", v.0, v.1, frame_bytes, block, d));
+		return None;
+	};
+	let s = make(1 + extra, m, &mut rng.clone());
+	let b = gen::build(&s, &mut rng.clone());
+	let at = locate(&b.truth)?;
+	if at % block != target {
+		out.observe("boundary_cases_off_target", format!("{}: element at {} (mod {} = {}), wanted {}", s.describe(), at, block, at % block, target));
+		return None;
+	}
+	match crate::model::parse(&b.bytes) {
+		Ok(mm) if mm == b.truth && crate::model::well_formed(&mm).is_ok() => {}
+		_ => {
+			out.inconclusive.push(format!("boundary case: generator/model disagree on {}", s.describe()));
+			return None;
+		}
+	}
+	out.class(format!("boundary|{}|block={}|d={}|v{}.{}", element, block, d, v.0, v.1));
+	Some((format!("{} [{} starts at file offset {} = {} x {} - {}]", s.describe(), element, at, (at + d) / block, block, d), b.bytes, b.truth))
+}
